@@ -107,7 +107,7 @@ PARAMS = {
     ("DistBeta", "a1_zero"): (0.0, 1.0), ("DistBeta", "a2_neg"): (1.0, -1.0), ("DistBeta", "str"): ("a", 1.0),
     ("DistBinomial", "p0"): (3, 0.0), ("DistBinomial", "phalf"): (3, 0.5), ("DistBinomial", "p1"): (3, 1.0),
     ("DistBinomial", "n_zero"): (0, 0.5), ("DistBinomial", "p_gt1"): (3, 1.5), ("DistBinomial", "n_float"): (2.5, 0.5),
-    ("DistDiscreteUniform", "range"): (2, 7), ("DistDiscreteUniform", "negrange"): (-5, -2), ("DistDiscreteUniform", "lo_eq_hi"): (3, 3),
+    ("DistDiscreteUniform", "range"): (2, 7), ("DistDiscreteUniform", "negrange"): (-5, -2), ("DistDiscreteUniform", "beyond_2p53"): (2 ** 53, 2 ** 53 + 1), ("DistDiscreteUniform", "lo_eq_hi"): (3, 3),
     ("DistDiscreteUniform", "lo_gt_hi"): (5, 2), ("DistDiscreteUniform", "float"): (1.5, 3),
     ("DistConstant", "float"): (2.5,), ("DistConstant", "int"): (7,), ("DistConstant", "str"): ("x",),
     ("DistErlang", "k1"): (2.0, 1), ("DistErlang", "k3"): (2.0, 3), ("DistErlang", "k12"): (2.0, 12),
@@ -130,7 +130,7 @@ PARAMS = {
     ("DistPearson5", "lt1"): (0.5, 2.0), ("DistPearson5", "gt1"): (2.5, 2.0), ("DistPearson5", "alpha_zero"): (0.0, 1.0), ("DistPearson5", "beta_neg"): (1.0, -1.0),
     ("DistPearson6", "lt1"): (0.5, 0.5, 2.0), ("DistPearson6", "gt1"): (2.5, 3.0, 2.0), ("DistPearson6", "mixed"): (0.5, 2.5, 1.0),
     ("DistPearson6", "alpha1_zero"): (0.0, 1.0, 1.0), ("DistPearson6", "beta_zero"): (1.0, 1.0, 0.0),
-    ("DistPoisson", "small"): (0.5,), ("DistPoisson", "large"): (20.0,), ("DistPoisson", "rate_zero"): (0.0,),
+    ("DistPoisson", "small"): (0.5,), ("DistPoisson", "large"): (20.0,), ("DistPoisson", "huge"): (800.0,), ("DistPoisson", "rate_zero"): (0.0,),
     ("DistTriangular", "inside"): (1.0, 2.0, 4.0), ("DistTriangular", "mode_lo"): (1.0, 1.0, 4.0), ("DistTriangular", "mode_hi"): (1.0, 4.0, 4.0),
     ("DistTriangular", "mode_below"): (1.0, 0.5, 4.0), ("DistTriangular", "mode_above"): (1.0, 5.0, 4.0), ("DistTriangular", "lo_eq_hi"): (2.0, 2.0, 2.0),
     ("DistUniform", "unit"): (0.0, 1.0), ("DistUniform", "wide"): (-1e6, 1e6), ("DistUniform", "hi_le_lo"): (2.0, 1.0),
